@@ -2,6 +2,7 @@
 import hashlib
 import io
 import json
+import warnings
 import os
 import random
 
@@ -73,7 +74,20 @@ def gen_history(rng, maxlen):
 def distract(ctx, rng, subjects):
     """Work on other readers / global state between two calls of the reader under test."""
     from pygac.calibration.noaa import Calibrator
-    k = rng.randrange(5)
+    k = rng.randrange(6)
+    if k == 5:
+        # some other job asks a user coefficient file for a spacecraft it does not contain (that request fails - whatever
+        # it does, it must leave no trace for the pass that is calibrated with the same file)
+        uf = [s_.userfile for s_ in subjects if getattr(s_, "userfile", None)]
+        if uf:
+            try:
+                with warnings.catch_warnings():
+                    warnings.simplefilter("ignore")
+                    Calibrator("metopc", coeffs_file=uf[0])
+            except Exception:      # noqa - the failing request itself is not judged here
+                pass
+            return "missing-spacecraft-request"
+        k = 4
     if k == 0:
         s = rng.choice(subjects)
         r = s.reader()
